@@ -13,7 +13,10 @@ MMDBLOCKS = [b"mail <user@example.com> auto\n\n", b"a [mail](mailto:x@y.org) lin
              b"gloss[?g1] and abbr[>a1]\n\n[?g1]: the term\n[>a1]: the abbreviation\n\n", b"| a | b |\n|---|:-:|\n| c | d |\n[Caption][tl]\n\n", b"![fig](f.png)\n\n", b"math \\\\(x^2\\\\) and $y_1$\n\n",
              b"term\n: definition\n\n", b"{{TOC}}\n\n", b"# Title #\n\nsee [Title][] and [ref][r1]\n\n[r1]: http://example.com/ \"t\" class=c\n\n", b"<div>\nraw *html*\n</div>\n\n",
              b"{++add++} {--del--} {~~a~>b~~} {==hi==}{>>c<<}\n\n", b"\"quoted\" 'single' -- --- ... H~2~O x^2^\n\n", b"inline[^an inline note] and [?(term) inline gloss]\n\n",
-             b"variables [%title] [%author] [%my custom key] [%nosuchkey] here\n\n"]
+             b"variables [%title] [%author] [%my custom key] [%nosuchkey] here\n\n",
+             # bodies whose FIRST byte is markup (what precedes the body differs between a bare body and one after a metadata block)
+             b"*foo*bar* baz\n\n", b"**foo**bar** baz\n\n", b"_foo_bar_ baz\n\n", b"\"quoted\" first 'single'\n\n", b"'single' first\n\n", b"`code` first\n\n", b"[link](http://u/) first\n\n", b"<x@y.z> first\n\n",
+             b"--- dash first\n\n", b"... dots first\n\n", b"^sup^ first ~sub~\n\n", b"{++add++} first\n\n", b"$m$ first\n\n", b"![i](i.png) first\n\n", b"[^n1] note first\n\n[^n1]: n\n\n", b"\\* escaped first\n\n"]
 FORMATS = [("html", 0), ("latex", 2), ("beamer", 3), ("memoir", 4)]
 EXTS = [mmd.EXT_DEFAULT, mmd.EXT_DEFAULT & ~mmd.EXT["SMART"], mmd.EXT["NOTES"] | mmd.EXT["CRITIC"] | mmd.EXT["NO_LABELS"] | mmd.EXT["PROCESS_HTML"]]
 C, S = mmd.EXT["COMPLETE"], mmd.EXT["SNIPPET"]
